@@ -63,7 +63,7 @@ func (e *c13ex) Exec(op string) string {
 		if fn == "" {
 			return "bad-op"
 		}
-		req, _ := json.Marshal(map[string]string{"id": w[3], "address": e.who(w[4]).Addr, "token": w[5], "amount": w[6], "reason": "r"})
+		req, _ := json.Marshal(map[string]string{"id": strings.ReplaceAll(w[3], "~", " "), "address": e.who(w[4]).Addr, "token": w[5], "amount": w[6], "reason": "r"})
 		e.nontrivial = true
 		return okErr(e.c.Do(e.who(w[2]), fn, string(req)))
 	case "get":
@@ -74,7 +74,7 @@ func (e *c13ex) Exec(op string) string {
 		if w[1] == "a" {
 			fn = "getLockedAllowedBalance"
 		}
-		p, errs := e.c.Query(fn, w[2])
+		p, errs := e.c.Query(fn, strings.ReplaceAll(w[2], "~", " ")) // "~" in an id stands for a blank
 		if errs != "" {
 			return "none"
 		}
@@ -140,6 +140,10 @@ func genC13(c *Cfg, emit func([]string)) {
 			switch r := c.Rng.Intn(10); {
 			case r < 3 || len(locks) == 0:
 				id := fmt.Sprintf("L%d", c.Rng.Intn(14))
+				if c.Rng.Intn(8) == 0 {
+					// an id with a blank before or after it is another id
+					id = pick("L1~", "~L1", "L2~", "L1~~")
+				}
 				u, tk := pick(users...), pick(tokens...)
 				amt := pick("1", "5", "7", "20", "50", "50", "100", "100", "101", "1000", "1001", "0", "-1", "340282366920938463463374607431768211456", "050", "+20", "0007")
 				h = append(h, fmt.Sprintf("lock %s %s %s %s %s %s", kind, signer, id, u, tk, amt))
@@ -197,8 +201,11 @@ func genC13(c *Cfg, emit func([]string)) {
 		for k := 0; k < 14; k++ {
 			h = append(h, fmt.Sprintf("get t L%d", k), fmt.Sprintf("get a L%d", k))
 		}
+		for _, id := range []string{"L1~", "~L1", "L2~", "L1~~"} {
+			h = append(h, "get t "+id, "get a "+id)
+		}
 		emit(h)
 	}
-	c.Rule = fmt.Sprintf("%d random histories of 4..%d lock / partial unlock / full unlock / over-unlock / duplicate-id / unknown-id / zero and negative amount requests by admin and non-admin signers over 3 addresses x 3 tokens (one with a group suffix) x both balance kinds, amounts also spelled with leading zeros or a plus sign, unlock amounts around the remaining amount (cur-1, cur, cur+1); lock records and spendable/locked balances of both kinds read back after the steps and for all accounts at the end; non-trivial = contains a lock or unlock; distinct = sha256", nHist, maxSteps+3)
+	c.Rule = fmt.Sprintf("%d random histories of 4..%d lock / partial unlock / full unlock / over-unlock / duplicate-id / unknown-id / ids that differ by a blank before or after / zero and negative amount requests by admin and non-admin signers over 3 addresses x 3 tokens (one with a group suffix) x both balance kinds, amounts also spelled with leading zeros or a plus sign, unlock amounts around the remaining amount (cur-1, cur, cur+1); lock records and spendable/locked balances of both kinds read back after the steps and for all accounts at the end; non-trivial = contains a lock or unlock; distinct = sha256", nHist, maxSteps+3)
 	c.Extra = map[string]any{"histories": nHist}
 }
